@@ -74,6 +74,11 @@ for m in MS:
 
 
 for m in (1, 16):
+    H("f1_alloc_m%d_16k" % m, "__verif::f1", "F1", thorough=["C01", "C07", "C09", "C18"], timeout=2400, mem_gb=16, cost=300, stubs=STUB_NULL,
+      inst="Bump<%d>" % m, funcs=F1_FUNCS,
+      bounds={"chunk_usable_bytes": "16..16384 (symbolic)", "request_size": "any usize accepted by Layout", "request_align": "1..4096",
+              "allocator": "A-null (refuses everything, logged)", "limit": "any Option<usize>", "unwind": 10})
+for m in (1, 16):
     H("f1_fast_m%d_68k" % m, "__verif::f1", "F1", thorough=["C01", "C04", "C10", "C18"], timeout=2400, mem_gb=16, cost=200, stubs=STUB_CUT,
       inst="Bump<%d>" % m, funcs=F1_FUNCS, exempt=[r"\[err\]"],
       bounds={"chunk_usable_bytes": "16..69632 (symbolic)", "request_size": "any usize accepted by Layout", "request_align": "1..4096", "allocator": "A-cut", "limit": "None", "unwind": 3})
